@@ -183,6 +183,20 @@ fn run_views(pc: usize, pr: usize, ctx: &mut Ctx) {
                     let vm = p.view_mut(s, e);
                     round_trips::<_, u32>(&vm, &expect, cs, "TooDeeViewMut");
                 }
+                // views built directly over a slice that is longer than cols*rows
+                if s == (0, 0) && e == (pc, pr) {
+                    let mut long: Vec<u32> = p.data().to_vec();
+                    long.extend([91, 92, 93]);
+                    let full: TooDee<u32> = TooDee::from(p.view((0, 0), (pc, pr)));
+                    {
+                        let dv = toodee::TooDeeView::new(pc, pr, &long);
+                        round_trips::<_, u32>(&dv, &full, cs, "TooDeeView::new over a longer slice");
+                    }
+                    {
+                        let dm = toodee::TooDeeViewMut::new(pc, pr, &mut long);
+                        round_trips::<_, u32>(&dm, &full, cs, "TooDeeViewMut::new over a longer slice");
+                    }
+                }
                 // a window of a window
                 let (wc, wr) = expect.size();
                 if wc >= 2 && wr >= 2 {
